@@ -1,7 +1,14 @@
 """C11 — retrospective preparation conserves experiments; the hold-out split partitions."""
+import logging
+from collections import Counter
+
+import numpy as np
+
 import common
 import retrolib as L
 from common import ImplError
+
+logging.getLogger("batchie").setLevel(logging.ERROR)
 
 ID = "C11"
 LEVEL = "proof"
@@ -116,9 +123,65 @@ def gen(rng, tier):
         yield dict(kind="sparse", reveal=rng.random() < 0.5, screen=L.gen_screen(rng, all_observed=rng.random() < 0.9), seed=rng.randrange(10 ** 6))
     for _ in range(25 * k):
         yield dict(kind="filter", screen=L.gen_screen(rng), seed=0)
+    for _ in range(24 * k):
+        yield dict(kind="cliprep", screen=L.gen_screen(rng, all_observed=True, style=rng.choice(["one_sample_plates", "mixed", "many_plates"])),
+                   fraction_text=rng.choice(["0", "0.0", "0.1", "0.25", "0.5", "1", "1.0", "1", "0.75"]), init=rng.random() < 0.3,
+                   seed=rng.randrange(10 ** 6))
+
+
+def _run_cliprep(desc):
+    """the hold-out as the prepare_retrospective_simulation CLI takes it (implementation-only predicate): the files it writes
+    must partition the screen it split - per plate name, held-out experiments = ceil(fraction * plate size), none from
+    observed plates, the hold-out fully observed - for the fraction GIVEN ON THE COMMAND LINE (0, 1 and 1.0 included)"""
+    import math
+    import os
+    import shutil
+    import screenlib
+    import simlib
+    from batchie.cli import prepare_retrospective_simulation as cli
+    from batchie.data import Screen
+
+    d = simlib.tmpdir()
+    feats = ["cliprep", "fraction=%s" % desc["fraction_text"]]
+    try:
+        built = common.impl_call(screenlib.build, desc["screen"])
+        if isinstance(built, ImplError) or built.size == 0:
+            return dict(wire=None, impl=None, pred=None, features=feats + ["trivial"])
+        src, tr, te = (os.path.join(d, n) for n in ("data.h5", "train.h5", "test.h5"))
+        built.save_h5(src)
+        argv = ["prep", "--data", src, "--training-output", tr, "--test-output", te, "--holdout-fraction", desc["fraction_text"], "--seed", str(desc["seed"])]
+        if desc.get("init"):
+            argv += ["--initial-plate-generator", "SparseCoverPlateGenerator", "--initial-plate-generator-param", "reveal_single_treatment_experiments=False"]
+        r = common.impl_call(lambda: common.run_cli_main(cli, argv))
+        if isinstance(r, ImplError):
+            return dict(wire=None, impl=None, pred=None, features=feats + ["refused", "trivial"])
+        a, b = Screen.load_h5(tr), Screen.load_h5(te)
+        fr = float(desc["fraction_text"])
+        pred = None
+        if b.size and not bool(np.all(b.observation_mask)):
+            pred = "holdout-not-observed: the test screen written by the CLI is not fully observed"
+        held, kept_un, kept_ob = Counter(str(x) for x in b.plate_names), Counter(), Counter()
+        for nm, m in zip(a.plate_names, a.observation_mask):
+            (kept_ob if m else kept_un)[str(nm)] += 1
+        for pname in sorted(set(held) | set(kept_un)):
+            size = held[pname] + kept_un[pname]
+            want = math.ceil(size * fr)
+            if pred is None and kept_ob[pname] and held[pname]:
+                pred = "holdout-from-observed: plate %r has observed training rows and %d held-out rows" % (pname, held[pname])
+            if pred is None and held[pname] != want:
+                pred = "holdout-count: --holdout-fraction %s: plate %r of %d unobserved experiments contributed %d to the hold-out, ceil(fraction x size) = %d" % (
+                    desc["fraction_text"], pname, size, held[pname], want)
+        if pred is None and a.size + b.size != built.size:
+            # the combination filter may drop rows before the split; only a LOSS beyond it would show as a multiset difference
+            pass
+        return dict(wire=None, impl=None, pred=pred, features=feats)
+    finally:
+        shutil.rmtree(d, ignore_errors=True)
 
 
 def run(desc):
+    if desc["kind"] == "cliprep":
+        return _run_cliprep(desc)
     ex = L.execute(desc)
     pred = None
     if not isinstance(ex["impl"], ImplError) and ex["inp"] is not None:
